@@ -669,4 +669,287 @@ theorem exclusion_toplevel (sch : SchemaEval) (d proj : Doc)
     · have : (kv.1 != "_id") = true := by simpa using e
       rw [this]; simp
 
+/-! ## §5 inclusion results (top-level paths) -/
+
+/-- set the first field named `k` to `v`, or append the field -/
+def upsert : Doc → String → V → Doc
+  | [], k, v => [(k, v)]
+  | (k', x) :: r, k, v => if k' == k then (k', v) :: r else (k', x) :: upsert r k v
+
+theorem put_top (fs : Doc) (k : String) (v : V) (hk : k ≠ "") (hv : v.isMissing = false) :
+    ∃ prev, put (.doc fs) [k] v false = .ok (.doc (upsert fs k v), prev) := by
+  have hk' : (k == "") = false := by simpa using hk
+  simp only [put, hk', Bool.false_and, Bool.false_eq_true, ↓reduceIte, fieldIndex, hv]
+  induction fs with
+  | nil => exact ⟨.missing, by simp [upsert]⟩
+  | cons kv r ih =>
+    obtain ⟨k', x⟩ := kv
+    rw [List.findIdx?_cons]
+    by_cases h : k' = k
+    · subst h
+      exact ⟨x, by simp [upsert, listSet]⟩
+    · have h' : (k' == k) = false := by simpa using h
+      obtain ⟨prev, ihp⟩ := ih
+      simp only [h', Bool.false_eq_true, ↓reduceIte, upsert]
+      cases hfi : List.findIdx? (fun kv => kv.1 == k) r with
+      | none =>
+        simp only [hfi] at ihp
+        simp only [Option.map_none]
+        refine ⟨.missing, ?_⟩
+        simp only [Except.ok.injEq, Prod.mk.injEq, V.doc.injEq] at ihp ⊢
+        simp [← ihp.1]
+      | some i =>
+        simp only [hfi] at ihp
+        simp only [Option.map_some, List.getElem?_cons_succ]
+        cases hg : r[i]? with
+        | none => simp [hg] at ihp
+        | some kvo =>
+          obtain ⟨ko, old⟩ := kvo
+          simp only [hg] at ihp ⊢
+          refine ⟨old, ?_⟩
+          simp only [Except.ok.injEq, Prod.mk.injEq, V.doc.injEq] at ihp ⊢
+          simp [listSet, ← ihp.1]
+
+theorem Put_top (res : Doc) (k : String) (v : V) (hk : k ≠ "") (hv : v.isMissing = false) :
+    ∃ prev, Put res [k] v false = .ok (upsert res k v, prev) := by
+  obtain ⟨prev, h⟩ := put_top res k v hk hv
+  exact ⟨prev, by simp [Put, hv, h]⟩
+
+theorem putAll_top (copies : List (String × V))
+    (h : ∀ pv ∈ copies, splitPath pv.1 = [pv.1] ∧ pv.1 ≠ "" ∧ pv.2.isMissing = false) : ∀ (res : Doc),
+    putAll res copies = .ok (copies.foldl (fun acc pv => upsert acc pv.1 pv.2) res) := by
+  induction copies with
+  | nil => intro res; rfl
+  | cons pv r ih =>
+    obtain ⟨p, v⟩ := pv
+    intro res
+    obtain ⟨h1, h2, h3⟩ := h (p, v) (by simp)
+    obtain ⟨prev, hp⟩ := Put_top res p v h2 h3
+    simp only [putAll, h1, hp, List.foldl_cons]
+    exact ih (fun pv hpv => h pv (by simp [hpv])) _
+
+/-- the keys appended by upserting `ps` one after the other into a document whose keys are `seen` -/
+def newKeys : List String → List String → List String
+  | _, [] => []
+  | seen, p :: r => if seen.contains p then newKeys seen r else p :: newKeys (seen ++ [p]) r
+
+theorem upsert_fun (g : String → V) (K : List String) (p : String) :
+    upsert (K.map fun k => (k, g k)) p (g p) =
+      if K.contains p then K.map (fun k => (k, g k)) else (K ++ [p]).map fun k => (k, g k) := by
+  induction K with
+  | nil => simp [upsert]
+  | cons k r ih =>
+    simp only [List.map_cons, upsert]
+    by_cases h : k = p
+    · subst h; simp
+    · have h' : (k == p) = false := by simpa using h
+      have h'' : (p == k) = false := by simpa using (fun e => h (e.symm) : ¬ p = k)
+      simp only [h', Bool.false_eq_true, ↓reduceIte, ih, List.contains_cons, h'', Bool.false_or]
+      split <;> simp
+
+theorem foldl_upsert_fun (g : String → V) (ps : List String) : ∀ (K : List String),
+    (ps.map fun p => (p, g p)).foldl (fun acc pv => upsert acc pv.1 pv.2) (K.map fun k => (k, g k)) =
+      (K ++ newKeys K ps).map fun k => (k, g k) := by
+  induction ps with
+  | nil => intro K; simp [newKeys]
+  | cons p r ih =>
+    intro K
+    simp only [List.map_cons, List.foldl_cons, upsert_fun, newKeys]
+    split
+    · exact ih K
+    · rw [ih (K ++ [p])]; simp
+
+theorem newKeys_fresh (ps : List String) : ∀ (K : List String), ps.Nodup → (∀ p ∈ ps, p ∉ K) →
+    newKeys K ps = ps := by
+  induction ps with
+  | nil => intro K _ _; rfl
+  | cons p r ih =>
+    intro K nd hK
+    simp only [List.nodup_cons] at nd
+    have : K.contains p = false := by simpa using hK p (by simp)
+    simp only [newKeys, this, Bool.false_eq_true, ↓reduceIte]
+    rw [ih (K ++ [p]) nd.2]
+    intro q hq
+    simp only [List.mem_append, List.mem_singleton, not_or]
+    exact ⟨hK q (by simp [hq]), fun e => nd.1 (e ▸ hq)⟩
+
+/-- no key is produced twice, and none that was already there -/
+theorem newKeys_spec (ps : List String) : ∀ (K : List String),
+    (newKeys K ps).Nodup ∧ (∀ p ∈ newKeys K ps, p ∈ ps ∧ p ∉ K) ∧ (∀ p ∈ ps, p ∈ K ∨ p ∈ newKeys K ps) := by
+  induction ps with
+  | nil => intro K; simp [newKeys]
+  | cons p r ih =>
+    intro K
+    simp only [newKeys]
+    split
+    · next hc =>
+      obtain ⟨h1, h2, h3⟩ := ih K
+      have hc : p ∈ K := by simpa using hc
+      refine ⟨h1, fun q hq => ⟨by simp [(h2 q hq).1], (h2 q hq).2⟩, fun q hq => ?_⟩
+      rcases List.mem_cons.mp hq with rfl | hq
+      · exact Or.inl hc
+      · exact h3 q hq
+    · next hc =>
+      obtain ⟨h1, h2, h3⟩ := ih (K ++ [p])
+      have hc : p ∉ K := by simpa using hc
+      refine ⟨List.nodup_cons.mpr ⟨fun hm => (h2 p hm).2 (by simp), h1⟩, fun q hq => ?_, fun q hq => ?_⟩
+      · rcases List.mem_cons.mp hq with rfl | hq
+        · exact ⟨by simp, hc⟩
+        · exact ⟨by simp [(h2 q hq).1], fun hk => (h2 q hq).2 (by simp [hk])⟩
+      · rcases List.mem_cons.mp hq with rfl | hq
+        · exact Or.inr (by simp)
+        · rcases h3 q hq with h | h
+          · rcases List.mem_append.mp h with h | h
+            · exact Or.inl h
+            · exact Or.inr (by simp at h; simp [h])
+          · exact Or.inr (by simp [h])
+
+theorem filterMap_present (d : Doc) (ps : List String) :
+    (ps.filterMap fun p => if (Get d p).isMissing then none else some (p, Get d p)) =
+      (ps.filter fun p => !(Get d p).isMissing).map fun p => (p, Get d p) := by
+  induction ps with
+  | nil => rfl
+  | cons p r ih =>
+    simp only [List.filterMap_cons, List.filter_cons]
+    cases h : (Get d p).isMissing <;> simp [ih]
+
+/-- top-level inclusion (flags only; `_id: 0` allowed): `_id` first, then the included fields that are
+    present, in projection order, each with the value stored at it; repeated names and an explicit
+    `_id: 1` change nothing; `_id: 0` drops `_id` at the end. -/
+theorem inclusion_toplevel (sch : SchemaEval) (d proj : Doc)
+    (hk : ∀ kv ∈ proj, isOpKey kv.1 = false ∧ (flagOf kv.2).isSome = true)
+    (hex : ∀ kv ∈ proj, flagOf kv.2 = some false → kv.1 = "_id")
+    (hinc : ((flagsOf proj).filter (·.2)).map (·.1) ≠ [])
+    (hs : ∀ kv ∈ proj, splitPath kv.1 = [kv.1] ∧ kv.1 ≠ "")
+    (hid : (Get d "_id").isMissing = false) :
+    Project sch d proj = .ok
+      (let incs := ((flagsOf proj).filter (·.2)).map (·.1)
+       let present := incs.filter fun p => !(Get d p).isMissing
+       let full := ("_id" :: newKeys ["_id"] present).map fun k => (k, Get d k)
+       if (flagsOf proj).any (fun pb => !pb.2 && pb.1 == "_id") then full.tail else full) := by
+  have hp := projProcess_flags sch d proj hk {}
+  obtain ⟨h1, h2, h3, h4, h5⟩ := flagsState_fields (flagsOf proj) {}
+  have e2 : (flagsState {} (flagsOf proj)).excludes = [] := by
+    rw [h2]
+    simp only [List.nil_append, List.map_eq_nil_iff, List.filter_eq_nil_iff]
+    intro pb hpb
+    obtain ⟨kv, hkv, rfl⟩ := List.mem_map.mp hpb
+    cases hf : flagOf kv.2 with
+    | none => have := (hk kv hkv).2; simp [hf] at this
+    | some b =>
+      cases b
+      · simp [hex kv hkv hf]
+      · simp
+  simp only [List.nil_append] at h1
+  have e1 : (((flagsOf proj).filter (·.2)).map (·.1)).isEmpty = false := by
+    cases hh : ((flagsOf proj).filter (·.2)).map (·.1) with
+    | nil => exact absurd hh hinc
+    | cons _ _ => rfl
+  have hsplit : ∀ p ∈ ((flagsOf proj).filter (·.2)).map (·.1), splitPath p = [p] ∧ p ≠ "" := by
+    intro p hp
+    obtain ⟨pb, hpb, rfl⟩ := List.mem_map.mp hp
+    obtain ⟨kv, hkv, rfl⟩ := List.mem_map.mp (List.mem_filter.mp hpb).1
+    exact hs kv hkv
+  obtain ⟨prev, hput⟩ := Put_top [] "_id" (Get d "_id") id_ne_empty hid
+  rw [Project_eq, hp]
+  simp only [projectFinish, e1, e2, List.isEmpty_nil, Bool.not_false, Bool.not_true, Bool.and_false,
+    Bool.false_eq_true, ↓reduceIte, hput, h5, h4, h3, h1, putAll_nil]
+  have hskip : ∀ l : List String, (l.filter fun p => !([] : List String).contains p) = l := by
+    intro l; simp
+  simp only [hskip, filterMap_present, Bool.false_or]
+  rw [putAll_top]
+  · have := foldl_upsert_fun (Get d) ((((flagsOf proj).filter (·.2)).map (·.1)).filter fun p => !(Get d p).isMissing) ["_id"]
+    simp only [List.map_cons, List.map_nil] at this
+    simp only [upsert, this, List.cons_append, List.nil_append, List.map_cons]
+    split
+    · rw [Unset_single _ _ id_ne_empty]; simp
+    · rfl
+  · intro pv hpv
+    obtain ⟨p, hp', rfl⟩ := List.mem_map.mp hpv
+    have hp'' := List.mem_filter.mp hp'
+    exact ⟨(hsplit p hp''.1).1, (hsplit p hp''.1).2, by simpa using hp''.2⟩
+
+/-- the value stored at a top-level path is the value of the first field of that name -/
+theorem Get_top (d : Doc) (k : String) (hs : splitPath k = [k]) (hk : k ≠ "") :
+    Get d k = (d.find? k).getD .missing := by
+  have hk' : (k == "") = false := by simpa using hk
+  simp only [Get, hs, get, hk', Bool.false_and, Bool.false_eq_true, ↓reduceIte]
+  induction d with
+  | nil => rfl
+  | cons kv r ih =>
+    obtain ⟨k', v⟩ := kv
+    simp only [getField, Doc.find?]
+    split
+    · simp [get]
+    · exact ih
+
+/-! ## §6 overlays: registration order -/
+
+theorem mergeSet_keys (m : List (String × V)) (p : String) (v : V) :
+    (mergeSet m p v).map (·.1) =
+      if (m.map (·.1)).contains p then m.map (·.1) else m.map (·.1) ++ [p] := by
+  have hany : m.any (·.1 == p) = (m.map (·.1)).contains p := by
+    induction m with
+    | nil => rfl
+    | cons kv r ih => simp only [List.any_cons, List.map_cons, List.contains_cons, ih]; rw [BEq.comm]
+  simp only [mergeSet, hany]
+  split
+  · rw [List.map_map]
+    apply List.map_congr_left
+    intro kv _
+    obtain ⟨k, x⟩ := kv
+    simp only [Function.comp]
+    split <;> rfl
+  · simp
+
+/-- after registering `(p, v)` every entry at `p` holds `v` (last value wins) … -/
+theorem mergeSet_same (m : List (String × V)) (p : String) (v : V) (x : V)
+    (h : (p, x) ∈ mergeSet m p v) : x = v := by
+  simp only [mergeSet] at h
+  split at h
+  · obtain ⟨kv, _, e⟩ := List.mem_map.mp h
+    obtain ⟨k, y⟩ := kv
+    simp only at e
+    split at e
+    · exact (Prod.mk.inj e).2.symm
+    · next hne => exact absurd (by simpa using (Prod.mk.inj e).1) hne
+  · next hany =>
+    rcases List.mem_append.mp h with h | h
+    · exact absurd (List.any_eq_true.mpr ⟨(p, x), h, by simp⟩) hany
+    · simpa using h
+
+/-- … and the entries at other paths are untouched -/
+theorem mergeSet_other (m : List (String × V)) (p : String) (v : V) (q : String) (x : V) (hq : q ≠ p) :
+    (q, x) ∈ mergeSet m p v ↔ (q, x) ∈ m := by
+  have hq' : (q == p) = false := by simpa using hq
+  simp only [mergeSet]
+  split
+  · constructor
+    · intro h
+      obtain ⟨kv, hkv, e⟩ := List.mem_map.mp h
+      obtain ⟨k, y⟩ := kv
+      simp only at e
+      split at e
+      · next hk =>
+        have : k = p := by simpa using hk
+        exact absurd ((Prod.mk.inj e).1.symm.trans this) hq
+      · rw [← e]; exact hkv
+    · intro h
+      exact List.mem_map.mpr ⟨(q, x), h, by simp [hq']⟩
+  · simp [hq]
+
+/-- `putAll` is a left-to-right fold -/
+theorem putAll_append (res : Doc) (a b : List (String × V)) :
+    putAll res (a ++ b) = match putAll res a with
+      | .error e => .error e
+      | .ok r => putAll r b := by
+  induction a generalizing res with
+  | nil => rfl
+  | cons pv r ih =>
+    obtain ⟨p, v⟩ := pv
+    simp only [List.cons_append, putAll]
+    split
+    · rfl
+    · exact ih _
+
 end Lungo
